@@ -53,6 +53,11 @@ def fresh_of_type(interp, t, name):
         return None
     if t == "Pos":
         return NTuple("Pos", ("n", "x", "y"), [z3.Int(fresh_name("%s.%s" % (name, f))) for f in ("n", "x", "y")])
+    if t.startswith("ndarray:"):
+        # ndarray:<dtype>:<d0>x<d1>...  an array of concrete shape with arbitrary content
+        from .ndarray import fresh_array
+        _, dt, shp = t.split(":")
+        return fresh_array(tuple(int(d) for d in shp.split("x")), dt, name, interp)
     if t == "str":
         return StrSeq([Tok(fresh_name(name), "any")])
     if t.startswith("tok:"):
